@@ -304,13 +304,7 @@ func (r *AuthnRequest) Redirect(relayState string, sp *ServiceProvider) (*url.UR
 	}
 
 	// We can't depend on Query().set() as order matters for signing
-	query := rv.RawQuery
-	if len(query) > 0 {
-		query += "&SAMLRequest=" + url.QueryEscape(requestStr.String())
-	} else {
-		query += "SAMLRequest=" + url.QueryEscape(requestStr.String())
-	}
-
+	query := "SAMLRequest=" + url.QueryEscape(requestStr.String())
 	if relayState != "" {
 		query += "&RelayState=" + url.QueryEscape(relayState)
 	}
@@ -322,11 +316,16 @@ func (r *AuthnRequest) Redirect(relayState string, sp *ServiceProvider) (*url.UR
 			return nil, err
 		}
 
+		// The signature covers exactly SAMLRequest=...[&RelayState=...]&SigAlg=...
+		// (saml-bindings 3.4.4.1), not any query the destination already has.
 		sig, err := signingContext.SignString(query)
 		if err != nil {
 			return nil, err
 		}
 		query += "&Signature=" + url.QueryEscape(base64.StdEncoding.EncodeToString(sig))
+	}
+	if len(rv.RawQuery) > 0 {
+		query = rv.RawQuery + "&" + query
 	}
 
 	rv.RawQuery = query
